@@ -20,7 +20,7 @@ import logging
 import asyncio as aio
 from typing import Any
 from collections.abc import Awaitable, Coroutine
-from .utils import gen_nonce
+from .utils import gen_nonce, timestamp
 from .encoding import BinaryStr, TypeNumber, LpTypeNumber, parse_interest, \
     parse_tl_num, parse_data, DecodeError, Name, NonStrictName, MetaInfo, \
     make_data, InterestParam, make_interest, FormalName, SignaturePtrs, parse_lp_packet, Component
@@ -50,6 +50,7 @@ class NDNApp:
     data_validator: Validator = None
     _autoreg_routes: list[tuple[FormalName, Route, Validator | None, bool, bool]]
     _prefix_register_semaphore: aio.Semaphore = None
+    _last_command_timestamp: int = 0
     logger: logging.Logger
 
     def __init__(self, face=None, keychain=None):
@@ -438,6 +439,7 @@ class NDNApp:
 
         # Fix the issue that NFD only allows one packet signed by a specific key for a timestamp number
         async with self._prefix_register_semaphore:
+            await self._wait_for_new_command_timestamp()
             try:
                 _, _, reply = await self.express_interest(
                     name=make_command('rib', 'register', self.face, name=name),
@@ -459,6 +461,16 @@ class NDNApp:
                 self.logger.error('Registration for %s failed: malformed response', Name.to_str(name))
                 return False
 
+    async def _wait_for_new_command_timestamp(self):
+        # NFD only allows one command signed by a specific key for a timestamp number (milliseconds):
+        # wait until the clock has moved on since the previous command, as NfdRegister does.
+        for _ in range(10):
+            now = timestamp()
+            if now > self._last_command_timestamp:
+                self._last_command_timestamp = now
+                break
+            await aio.sleep(0.001)
+
     async def unregister(self, name: NonStrictName) -> bool:
         """
         Unregister a route for a specific prefix.
@@ -468,16 +480,19 @@ class NDNApp:
         """
         name = Name.normalize(name)
         del self._prefix_tree[name]
-        try:
-            _, _, reply = await self.express_interest(
-                make_command('rib', 'unregister', self.face, name=name), lifetime=1000)
-            ret = parse_response(reply)
-            return ret['status_code'] == 200
-        except (InterestNack, InterestTimeout, InterestCanceled, ValidationFailure):
-            return False
-        except (DecodeError, TypeError, ValueError, IndexError, struct.error):
-            # The reply is not a ControlResponse
-            return False
+        # Commands are issued one at a time, like in register()
+        async with self._prefix_register_semaphore:
+            await self._wait_for_new_command_timestamp()
+            try:
+                _, _, reply = await self.express_interest(
+                    make_command('rib', 'unregister', self.face, name=name), lifetime=1000)
+                ret = parse_response(reply)
+                return ret['status_code'] == 200
+            except (InterestNack, InterestTimeout, InterestCanceled, ValidationFailure):
+                return False
+            except (DecodeError, TypeError, ValueError, IndexError, struct.error):
+                # The reply is not a ControlResponse
+                return False
 
     def set_interest_filter(self, name: NonStrictName, func: Route,
                             validator: Validator | None = None, need_raw_packet: bool = False,
